@@ -452,6 +452,17 @@ def run_group_worker(spec):
     from . import jaxcompat  # noqa: F401  (before genjax)
     from . import solve
     out = {"gid": gid, "records": [], "error": None}
+    # a group that runs away is an error (exit 2, inconclusive), never a silent hang
+    limit = int(os.environ.get("VERIF_GROUP_TIMEOUT", "5400" if tier == "thorough" else "2400"))
+    try:
+        import signal
+
+        def _alarm(signum, frame):
+            raise TimeoutError(f"group exceeded VERIF_GROUP_TIMEOUT={limit}s")
+        signal.signal(signal.SIGALRM, _alarm)
+        signal.alarm(limit)
+    except Exception:
+        pass
     try:
         mod = importlib.import_module(module)
         g = Group(prop, gid, tier, seed, replay)
